@@ -246,6 +246,50 @@ def splicable(h):
     return True
 
 
+def specialise_varargs(repo, h, skip, call, bind_args, counter, caller=None):
+    """helper(x, *names) called with constant extra arguments: (a copy of the helper without the star parameter, in which `names` is
+    the tuple display of those constants and loops over it are unrolled; the binding of the remaining parameters) - or None"""
+    a = h.node.args
+    if not a.vararg or any(isinstance(x, ast.Starred) for x in call.args) or any(k.arg is None for k in call.keywords):
+        return None
+    b = bind_args(h, skip, call)
+    if b is None:
+        return None
+    name = a.vararg.arg
+    tup = b.get(name)
+    if isinstance(tup, ast.Tuple) and caller is not None:
+        # names of module-level string constants of the caller's module are read as the constants
+        ca = caller.node.args
+        caller_locals = _assigned_names(caller.node) | {p_.arg for p_ in ca.posonlyargs + ca.args + ca.kwonlyargs}
+        els = []
+        for e in tup.elts:
+            if isinstance(e, ast.Name) and e.id not in caller_locals:
+                cv = repo.const_value(caller.mod, e.id)
+                if isinstance(cv, ast.Constant) and isinstance(cv.value, str):
+                    e = copy.deepcopy(cv)
+            els.append(e)
+        tup = ast.Tuple(elts=els, ctx=ast.Load())
+    if not isinstance(tup, ast.Tuple) or len(tup.elts) > 8 or not all(isinstance(e, ast.Constant) for e in tup.elts) or name in _assigned_names(h.node):
+        return None
+    node = copy.deepcopy(h.node)
+
+    class S(ast.NodeTransformer):
+        def visit_Name(self, n):
+            if n.id == name and isinstance(n.ctx, ast.Load):
+                return ast.copy_location(copy.deepcopy(tup), n)
+            return n
+    node.body = [S().visit(st) for st in node.body]
+    node.args.vararg = None
+    h2 = copy.copy(h)
+    h2.node = node
+    from .peval import unroll_loops
+    counter[0] += 1
+    unroll_loops(repo, h2, [counter[0] * 1000])
+    ast.fix_missing_locations(h2.node)
+    b = {k: v for k, v in b.items() if k != name}
+    return h2, b
+
+
 def splice(h, binding, context, target, caller_names, tag, nonnull=None):
     """statements replacing the call; None if impossible"""
     body = [copy.deepcopy(st) for st in h.node.body if not (isinstance(st, ast.Expr) and isinstance(st.value, ast.Constant) and isinstance(st.value.value, str))]
@@ -1214,8 +1258,13 @@ def inline_new_helpers(repo, new_funcs, resolve_helper, bind_args, max_rounds=2)
                     if call is not None:
                         h, skip = resolve_helper(repo, f, call)
                         local = h is not None and _is_local_procedure(f.node, h.node)
+                        b_special = None
+                        if h is not None and (h.qname in new_funcs or local) and h.node is not f.node and h.node.args.vararg is not None:
+                            sp = specialise_varargs(repo, h, skip, call, bind_args, counter, caller=f)
+                            if sp is not None:
+                                h, b_special = sp
                         if h is not None and (h.qname in new_funcs or local) and h.node is not f.node and splicable(h):
-                            b = bind_args(h, skip, call)
+                            b = b_special if b_special is not None else bind_args(h, skip, call)
                             b = _bind_receiver(h, skip, call, b, f)
                             if b is not None:
                                 counter[0] += 1
